@@ -209,7 +209,7 @@ def zone_grid(draw, h, w):
 
 
 @st.composite
-def backend_bits(draw, h, w, frac_dask=4):
+def backend_bits(draw, h, w, frac_dask=6):
     if draw(st.integers(0, frac_dask - 1)) == 0:
         return {"backend": "dask", "zchunks": [draw(S.chunking(h)), draw(S.chunking(w))],
                 "scheduler": draw(st.sampled_from(["synchronous", "threads"]))}
@@ -289,7 +289,7 @@ def ct3d_cases(draw, max_side):
 
 
 def shards(tier):
-    n2, n3, per2, per3, side = (8, 4, 300, 200, 7) if tier == "quick" else (12, 4, 2500, 1500, 10)
+    n2, n3, per2, per3, side = (10, 4, 220, 160, 7) if tier == "quick" else (12, 4, 2500, 1500, 10)
     out = []
     for i in range(n2):
         out.append(("ct2d#%d" % i, lambda ctx: drive_hypothesis(ctx, body_ct2d, ct2d_cases(side), per2)))
